@@ -53,7 +53,7 @@ CLAIMS = {
               "trees, domains, numbers of variables, activations. Tie: exact row SEQUENCES of generated cases - projections included, "
               "against the D-model - on every run; cached configuration and re-evaluation against the specification."),
         design='7/C02 + 12.7', technique='Coq proof (partition/cover invariant by structural induction, counting argument; cover-up-to-required-variables invariant over all activations for the de-duplicating evaluator, over translator-extracted requirement tables) + correspondence on exact row sequences',
-        note=BASE_NOTE + " The D-model covers comparisons, membership tests, expressions in condition position, and_/or_/not_ (any nesting); de-duplication inside nested queries and for_all, rows carrying flattened elements (identified by position in the implementation) and the cached replay path are outside it (set-level tie / C05). Selected EXPRESSIONS other than variables are covered by C19_selected (one variable), C02_row_values and by correspondence."),
+        note=BASE_NOTE + " The D-model covers comparisons, membership tests, expressions in condition position, and_/or_/not_ (any nesting) and nested queries in condition position; de-duplication inside for_all, rows carrying flattened elements (identified by position in the implementation) and the cached replay path are outside it (set-level tie / C05). Selected EXPRESSIONS other than variables are covered by C19_selected (one variable), C02_row_values and by correspondence."),
     'C03': dict(
         text=("Machine-checked theorems over Generated.v (the inverse-operator table and the Not dispatch are extracted from symbolic.py by the "
               "fail-closed translator on every run): the table is total, every row is the TRUE inverse on all operand pairs and it is "
@@ -114,7 +114,10 @@ CLAIMS = {
               "partition invariant (eval_cover handles CSub, including the sub-query's own selected variables being bound). Tie: generated "
               "queries with sub-queries under & and | (also as the only condition, selecting a proper subset of the variables it mentions) and "
               "as comparison OPERANDS - an(...) over a further variable, and the(...) correlated with the enclosing query - compared with the "
-              "model and with the specification that reads them inlined."),
+              "model and with the specification that reads them inlined. C15_inline_rows_dedup: the same for the evaluator WITH its "
+              "de-duplication of rows (Dedup.v covers nested queries in condition position: their operators key the duplicate checks on what "
+              "the nested query selects and on what the enclosing operators require); a quarter of the cases are projections over deeply nested "
+              "and_/or_ with sub-conditions wrapped as nested queries, tied by exact row SEQUENCES against that model."),
         design='7/C15', technique='Coq proof (CSub case of the partition invariant + C02 soundness/completeness) + correspondence',
         note=BASE_NOTE + " In operand position a sub-query is read, by elaboration in the harness, as the comparison and-ed with the sub-query as a condition (tied by the correspondence, not a theorem); constructor-argument position is covered by C13 (nested predicate-form terms) and C11 (nested head arguments)."),
     'C16': dict(
